@@ -539,7 +539,7 @@ class IntervalNumpyPS(IntervalPS):
             yield self.describe_pattern((left_bound, max_right)), extent
 
         for right_bound in np.sort(uniq_right)[::-1][1:]:
-            extent = fbarray((self.data[:, 0] <= right_bound).tolist())
+            extent = fbarray((self.data[:, 1] <= right_bound).tolist())
             yield self.describe_pattern((min_left, right_bound)), extent
 
         yield self.describe_pattern(None), fbarray([False] * len(self.data))
